@@ -20,7 +20,7 @@ def fault_list(counts, tier, rnd):
     for (kind, sel), n in counts.items():
         for k in range(1, n + 1):
             acts = ERRS + (SHORTS if kind in "rw" else [])
-            if tier == "quick" and n > 12:
+            if tier == "quick" and n > 12 and k not in (1, 2, n // 2, n - 1, n):
                 acts = [rnd.choice(ERRS)] + ([rnd.choice(SHORTS)] if kind in "rw" else [])
             for a in acts:
                 out.append((kind, sel, k, a))
@@ -50,7 +50,7 @@ def stats_counts(ev, slots, temp=True):
         if f["f"] in slots:
             c[("w", f["f"])] = f["wcalls"]; c[("r", f["f"])] = f["rcalls"]; c[("s", f["f"])] = f["scalls"]
     if temp:
-        c[("w", -2)] = ev["temp_wcalls"]; c[("r", -2)] = ev["temp_rcalls"]
+        c[("w", -2)] = ev["temp_wcalls"]; c[("r", -2)] = ev["temp_rcalls"]; c[("s", -2)] = ev.get("temp_scalls", 0)
     return {k: v for k, v in c.items() if v > 0}
 
 
@@ -236,7 +236,7 @@ def tool_family(ck, rnd, tier, bd, wd, trace, owner):
         for (k, role), n in sorted(cnt.items()):
             ks = range(1, n + 1) if (tier == "thorough" or n <= 6) else sorted(set([1, 2, n, n // 2] + rnd.sample(range(1, n + 1), 3 if ri < 2 or ri == 3 else 1)))
             for nth in ks:
-                for a in ([5, 28] if tier == "quick" else ERRS) + ([-1] if k in "rw" else []):
+                for a in ERRS + ([-1] if k in "rw" else []):          # every errno matters: code may special-case one (EINTR retries)
                     faults.append((ri, [(k, role, nth, a)]))
                 if k == "w":        # a short write whose retry fails, or is short again
                     for a2 in ((5, -1) if tier == "quick" else (5, 28, -1, 0)):
@@ -300,7 +300,7 @@ def zckdl_family(ck, rnd, tier, bd, wd, trace, owner):
             for (k, role), n in sorted(cnt.items()):
                 ks = range(1, n + 1) if (tier == "thorough" or n <= 8) else sorted(set([1, 2, 3, n - 1, n, n // 2] + rnd.sample(range(1, n + 1), 4)))
                 for nth in ks:
-                    for a in ([5] if tier == "quick" else ERRS) + ([-1] if k in "rw" else []):
+                    for a in ([5, 4] if tier == "quick" else ERRS) + ([-1] if k in "rw" else []):
                         faults.append((ti, [(k, role, nth, a)]))
                     if k == "w" and (tier != "quick" or nth in (1, 2, n)):
                         faults.append((ti, [(k, role, nth, -1), (k, role, nth + 1, 5)]))
